@@ -2801,6 +2801,7 @@ class Env(cabc.MutableMapping):
         Callable aliases use this to provide scoped ``env`` variables.
         """
         old = {}
+        unpin = set()  # captured keys that had no thread-local entry
         local = self._d._local
         pushed = False
         exception = None
@@ -2810,6 +2811,8 @@ class Env(cabc.MutableMapping):
             # single positional argument should be a dict-like object
             if other is not None:
                 for k, v in other.items():
+                    if k not in local:
+                        unpin.add(k)
                     old[k] = self._capture_for_swap(k, local)
                     self._set_item(k, v, thread_local=True)
             # kwargs could also have been sent in
@@ -2817,6 +2820,8 @@ class Env(cabc.MutableMapping):
                 if k not in old:
                     # also given positionally: what was captured there is the
                     # value to restore, not the one the positional dict just set
+                    if k not in local:
+                        unpin.add(k)
                     old[k] = self._capture_for_swap(k, local)
                 self._set_item(k, v, thread_local=True)
 
@@ -2840,6 +2845,13 @@ class Env(cabc.MutableMapping):
                         pass
                 else:
                     self._set_item(k, v, thread_local=True)
+                    if k in unpin:
+                        # the value came from the shared mapping, a default
+                        # or an overlay: leave no thread-local copy behind,
+                        # or later assignments and deletions made by this
+                        # thread would stay private to it
+                        self._d.del_locally(k)
+                        self._detyped = None
             if exception is not None:
                 # plain re-raise to preserve __cause__/__context__ chains
                 raise exception
